@@ -105,6 +105,18 @@ CHECKS["C10"] = (
     "DESIGN.md 6 (C10)",
 )
 
+CHECKS["C11"] = (
+    "model_checking",
+    "explicit-state breadth-first search over member-assignment histories on real union objects (state = byte buffer of the reference union model), invariant checked in every state",
+    "Unions of 2-3 members (thorough 4) out of 22 member types (ints, arrays, char arrays, enum, pointer, nested / twice-nested / anonymous "
+    "structs with and without padding, nested unions), both endiannesses and layouts, both declaration orders: from parsed and default initial "
+    "states all sequences of assignments (direct, through nested structs two levels deep, through anonymous folding) up to depth 2 (3) are "
+    "executed on the real object; after each transition every member must equal decode(member, buffer), dumps must equal the buffer at every "
+    "bit that is data in some member, and a fresh object parsed from the buffer must equal the reached one. Also: size/consumption at stream "
+    "offsets 1,3,8, unions embedded in structs/arrays under both readers, API-built unions with members at non-zero offsets.",
+    "DESIGN.md 5.1, 6 (C11)",
+)
+
 NOT_APPLICABLE = {}
 
 
